@@ -257,6 +257,14 @@ class World:
         self.builder.discover()
         return "ok"
 
+    def op_define_late(self, op: dict[str, Any]) -> str:
+        """the class named Late comes into existence now (its name was unknown to every compile so far)"""
+        if "Late" in U.CLS:
+            raise SkipOp("defined")
+        U.define_late()
+        self.stats.probes["class_defined_mid_run"] += 1
+        return "ok"
+
     def op_compile(self, op: dict[str, Any]) -> str:
         text, how = op["text"], op["how"]
         if how == "validate":
@@ -584,6 +592,16 @@ class Gen:
             fields.append([fname, fs])
             if fs.get("cap"):
                 caps.append(fs["cap"])
+            if r.random() < 0.12:
+                # the same field listed a second time: both specs must hold, both captures are made
+                fs2: dict[str, Any] = {"k": "exists"} if r.random() < 0.4 else {"k": "val", "v": self.gen_value(val, depth, caps)}
+                if fs2["k"] == "exists" or r.random() < 0.5:
+                    fs2["cap"] = self.newcap()
+                    caps.append(fs2["cap"])
+                if fs2["k"] == "exists":
+                    fields.insert(r.randint(0, len(fields)), [fname, fs2])
+                else:
+                    fields.append([fname, fs2])
         return {"cls": clsspec, "fields": fields}
 
     def pattern_for(self, x: Any) -> dict[str, Any]:
@@ -683,7 +701,29 @@ class Gen:
             if f"nested{i}" in w.nodes:
                 do({"op": "match", "m": f"m{nm}", "n": {"h": f"nested{i}", "path": []}})
                 self.w.stats.probes["same_child_other_capture"] += 1
-        for _ in range(cfg["nops"]):
+        late_at = r.randrange(cfg["nops"]) if cfg.get("late_class") else -1
+        for opi in range(cfg["nops"]):
+            if opi == late_at:
+                # a class name unknown so far (tried, and refused, through the entry points) becomes a class
+                for _j in range(r.choice([0, 1, 2])):
+                    do({"op": "bad_compile", "text": r.choice(["(Late)", '(Late @a="x")', "(Seq @items=[(Late) *])", "(* @kid=(Late))"]), "how": r.choice(["from_pattern", "validate", "multi"])})
+                do({"op": "define_late"})
+                lspec = {"c": "Late", "p": {"a": r.choice(["x", "late", ""])}, "ch": {"kid": self.rwg.spec(0)} if r.random() < 0.6 else {}, "o": "no"}
+                if "ref" in lspec["ch"].get("kid", {}):
+                    lspec["ch"] = {}
+                do({"op": "build", "spec": lspec if r.random() < 0.5 else {"c": "Seq", "p": {}, "ch": {"items": [lspec]}, "o": "no"}, "out": "late"})
+                tgt = w.nodes["late"]
+                tgt = tgt if RW.cname(tgt) == "Late" else tgt.items[0]
+                for how in ("validate", "from_pattern"):
+                    ast = self.gen_node(tgt, 1, [])
+                    ast["cls"] = r.choice([["Late"], ["Late", "LeafA"], ["LeafB", "Late"]])
+                    nm += 1
+                    if r.random() < 0.3:
+                        ast = {"cls": ["Late"], "fields": []}
+                    do({"op": "compile", "how": how, "text": render(ast, ws), "ast": ast, "out": f"m{nm}"})
+                    if how == "from_pattern":
+                        do({"op": "match", "m": f"m{nm}", "n": {"h": "late", "path": [] if RW.cname(w.nodes["late"]) == "Late" else [["items", 0]]}})
+                continue
             kind = r.choice(cfg["mix"])
             names = list(w.nodes)
             if kind == "compile" or not w.matchers:
@@ -830,6 +870,7 @@ def make_config(rseed: int, prop: str, tier: str, faults: bool) -> dict[str, Any
         "prop": prop,
         "actors": [f"m{i}" for i in range(r.choice([1, 2, 2, 3]))],
         "ntrees": r.choice([1, 2, 3]),
+        "late_class": r.random() < 0.3,
         "nops": r.choice([8, 15, 25, 40]) if tier == "quick" else r.choice([15, 25, 40, 60]),
         "mix": r.choice(mixes),
         "build": {
